@@ -215,8 +215,10 @@ func decodeKeyCharByEscapedChar(buf []byte, cursor int64) ([]byte, int64, error)
 		return []byte{'\t'}, cursor, nil
 	case 'u':
 		return decodeKeyCharByUnicodeRune(buf, cursor)
+	case nul:
+		return nil, 0, errors.ErrUnexpectedEndOfJSON("string", cursor)
 	}
-	return nil, cursor, nil
+	return nil, 0, errors.ErrInvalidCharacter(c, "escaped char", cursor)
 }
 
 func decodeKeyByBitmapUint8(d *structDecoder, buf []byte, cursor int64) (int64, *structFieldSet, error) {
